@@ -113,6 +113,35 @@ def _ext(base):
     return os.path.splitext(base.lower())[1]
 
 
+# every extension of the README's "Archives" table -> (writer, compression) of the real nested archive put behind it
+NEST = {".zip": ("zip", None), ".7z": ("7z", None), ".tar": ("tar", None), ".tar.gz": ("tar", "gz"), ".tgz": ("tar", "gz"),
+        ".gz": ("tar", "gz"), ".tar.bz2": ("tar", "bz2"), ".tbz2": ("tar", "bz2"), ".bz2": ("tar", "bz2"),
+        ".tar.xz": ("tar", "xz"), ".txz": ("tar", "xz"), ".xz": ("tar", "xz")}
+
+
+def nested_ext(name):
+    low = name.lower()
+    for ext in sorted(NEST, key=len, reverse=True):
+        if low.endswith(ext):
+            return ext
+    return None
+
+
+def nested_blob(ext, token):
+    inner = [{"name": "inner.txt", "data": (token + " text inside a nested archive\n").encode()}]
+    kind, comp = NEST[ext]
+    if kind == "zip":
+        return ZF.zipforge(inner)
+    if kind == "7z":
+        return SZ.sevenz(inner)
+    return TF.tarforge(inner, comp)
+
+
+def canon_ext(ext):
+    e = ext.lower()
+    return ".gz" if e in (".bz2", ".xz") else e
+
+
 def skip_reasons(name):
     """Reasons why the statement says this member name never produces a result.  Only clear cases: a rule must hold under
     the POSIX reading (separator /) AND the Windows reading (separators / and \\) of the name; anything else is don't-care."""
@@ -123,10 +152,9 @@ def skip_reasons(name):
         out.append("hidden")
     if name.startswith("__MACOSX/") and ".." not in name.split("/") and "\\" not in name:
         out.append("macosx")
-    pe, we = _ext(pbase), _ext(wbase)
-    if pe == ".zip" and we == ".zip":
-        out.append("nested")
-    elif pe != ".txt" and we != ".txt" and not (pe == ".zip" or we == ".zip"):
+    if nested_ext(name):
+        out.append("nested")          # the member IS a real archive of that type (see build)
+    elif _ext(pbase) != ".txt" and _ext(wbase) != ".txt":
         out.append("unsupported")
     return out
 
@@ -173,8 +201,8 @@ def build(arch, root, seed):
                 del info["tok"][tok]
             elif "big" in m["n"]:
                 data = (tok + " oversize member\n").encode() + b"x" * (OVERSIZE - len(tok) - 17)
-            elif "nested" in reasons or name.lower().endswith(".zip"):
-                data = ZF.zipforge([{"name": "inner.txt", "data": (tok + " text inside a nested archive\n").encode()}])
+            elif nested_ext(name):
+                data = nested_blob(nested_ext(name), tok)
             else:
                 data = (tok + " member text\n").encode()
         if cls == "X":
@@ -466,6 +494,10 @@ def _name_shrinks(nm):
         for i, s in enumerate(segs):
             if s != "a":
                 yield gname(prefix, sep, ext, segs[:i] + ["a"] + segs[i + 1:])
+        if ext != ext.lower():
+            yield gname(prefix, sep, ext.lower(), segs)
+        if canon_ext(ext) != ext.lower():
+            yield gname(prefix, sep, canon_ext(ext), segs)
     elif "k" in nm and nm["k"] in CANARIES:
         fam = CANARIES[nm["k"]][0]
         for kid in CANARY_ORDER:
@@ -519,7 +551,7 @@ def shrinks(case):
 
 def _name_embeds(s, b):
     if "g" in s:
-        if "g" not in b or s["g"][2] != b["g"][2]:
+        if "g" not in b or canon_ext(s["g"][2]) != canon_ext(b["g"][2]):
             return False
         if s["g"][0] not in ("", b["g"][0]) or (s["g"][1] != b["g"][1] and len(s["s"]) > 1 and s["g"][1] != "/"):
             return False
@@ -584,41 +616,50 @@ def _with_flags(m, f):
     return m if f == [1, 0, 0] else {**m, "f": f}
 
 
+PLAIN = ("zip-s", "tar", "7z")          # containers that get the full name depth; compressed variants get one level less
+
+
+def bounds(tier):
+    D = 2 if tier == "quick" else 3
+    return {"D": D, "D_compressed": D - 1, "D_types": D - 1, "D_types_compressed": max(1, D - 2)}
+
+
 def _arch_gen(tier, part):
     """archives of one part; for the big grammar parts the first element of each yielded pair is the name index (used to
     partition the work without materialising the whole part)"""
-    quick = tier == "quick"
-    D = 2 if quick else 3
-    D2 = 1 if quick else 2
+    b = bounds(tier)
+    D = b["D"]
     kind, _, arg = part.partition(":")
     if kind == "names":
-        for i, nm in enumerate(names(D)):
+        for i, nm in enumerate(names(D if arg in PLAIN else b["D_compressed"])):
             if arg == "7z":
                 for f, ns in _flag_combos():
-                    if quick and len(nm["s"]) > 1 and (f[1] or f[2]):
-                        continue          # quick: EmptyStream / directory-attribute forgeries only for one-segment names
+                    if len(nm["s"]) == D and (f[1] or f[2]):
+                        continue          # EmptyStream / directory-attribute forgeries for names of fewer than D segments only
                     yield i, {"c": "7z", "m": [W1, _with_flags({"n": nm, "t": "REG"}, f)], "o": ({"no_streams": True} if ns else {})}
             else:
                 yield i, {"c": arg, "m": [W1, {"n": nm, "t": "REG"}]}
     elif kind == "tartypes":
         link = gname("", "/", ".txt", ["a"])
         lname = gname("", "/", ".txt", ["l"])
+        d = b["D_types"] if arg in PLAIN else b["D_types_compressed"]
         for t in TAR_TYPES[1:]:
-            for i, nm in enumerate(names(D2)):
+            for i, nm in enumerate(names(d)):
                 m = {"n": nm, "t": t}
                 if t in ("SYM", "LNK"):
                     m["l"] = link
                 yield i, {"c": arg, "m": [W1, m]}
         for t in ("SYM", "LNK"):
-            for i, target in enumerate(names(D if arg == "tar" else D2)):      # full target grammar on the plain tar only
+            for i, target in enumerate(names(d)):
                 yield i, {"c": arg, "m": [W1, {"n": lname, "t": t, "l": target}]}
     elif kind == "ziptypes":
         link = gname("", "/", ".txt", ["a"])
         lname = gname("", "/", ".txt", ["l"])
-        for i, nm in enumerate(names(D2)):
+        d = b["D_types"] if arg in PLAIN else b["D_types_compressed"]
+        for i, nm in enumerate(names(d)):
             yield i, {"c": arg, "m": [W1, {"n": nm, "t": "DIR"}]}
             yield i, {"c": arg, "m": [W1, {"n": nm, "t": "ZSYM", "l": link}]}
-        for i, target in enumerate(names(D if arg == "zip-s" else D2)):    # full target grammar on the stored zip only
+        for i, target in enumerate(names(d)):
             yield i, {"c": arg, "m": [W1, {"n": lname, "t": "ZSYM", "l": target}]}
     else:
         for i, a in enumerate(_small_part(kind)):
@@ -660,6 +701,13 @@ def _small_part(kind):
                     yield {"c": c, "m": [{"n": gname("", "/", "", ["d"]), "t": t, "l": dn}, through, W1]}
             for c in ZIPC:
                 yield {"c": c, "m": [{"n": gname("", "/", "", ["d"]), "t": "ZSYM", "l": dn}, through, W1]}
+    elif kind == "nested":
+        # a real nested archive behind every archive extension of the README's format table, lower and upper case
+        for c in ZIPC + TARC + ["7z"]:
+            for ext in NEST:
+                for e in (ext, ext.upper()):
+                    for segs in (["n"], ["a", "n"]):
+                        yield {"c": c, "m": [W1, {"n": gname("", "/", e, segs), "t": "REG"}]}
     elif kind == "pairs":
         # two data-carrying members whose names collide (file vs directory of the same name, same file twice, aliases)
         pool = [gname("", "/", ".txt", ["a"]), gname("", "/", ".txt", ["a.txt", "a"]), gname("", "/", "", ["a"]),
@@ -698,14 +746,15 @@ def parts(tier):
     quick = tier == "quick"
     out = []
     for c in ZIPC + TARC:
-        out.append((f"names:{c}", 4 if quick else 16))
-    out.append(("names:7z", 16 if quick else 128))
+        out.append((f"names:{c}", (4 if quick else 32) if c in PLAIN else (1 if quick else 4)))
+    out.append(("names:7z", 16 if quick else 96))
     for c in TARC:
-        out.append((f"tartypes:{c}", 2 if quick else 8))
+        out.append((f"tartypes:{c}", (2 if quick else 16) if c in PLAIN else 2))
     for c in ZIPC:
-        out.append((f"ziptypes:{c}", 2 if quick else 8))
+        out.append((f"ziptypes:{c}", (2 if quick else 8) if c in PLAIN else 2))
     out.append(("canary", 8))
     out.append(("pairs", 2))
+    out.append(("nested", 2))
     out.append(("trunc", 4))
     out.append(("oversize", 8))
     return out
@@ -800,7 +849,10 @@ def run(ctx):
                    "read_archive under the audit-hook monitor. states = consumer-history prefixes executed, transitions = "
                    "generator steps + monitored file-system events, distinct_nontrivial = distinct (family, history kind, "
                    "#results, exception type, #temp dirs, notes, failed clauses) classes",
-           "bounds": {"tier": ctx.tier, "name_depth": 2 if ctx.quick else 3, "type_name_depth": 1 if ctx.quick else 2},
+           "bounds": {"tier": ctx.tier, **bounds(ctx.tier),
+                      "explanation": "D = max name segments on zip-stored / plain tar / 7z; compressed variants (zip-deflated, tar.gz/"
+                                     "bz2/xz) one level less; member types and link targets D_types; 7z EmptyStream/dir-attribute "
+                                     "forgeries for names of < D segments, data-stream x no-MainStreamsInfo combinations for all"},
            "monitor": {"watched_events": M.WATCHED_DOC, "read_whitelist_dirs": wl_dirs, "read_whitelist_files": wl_files,
                        "whitelist_applies_to": "read-only events (open without write mode/flags, os.listdir, os.scandir) only"}}
     assumptions = [
